@@ -1016,3 +1016,34 @@ def r4_9(rep):
         rep.check(nested, "array-constness:innermost-element", "the element chain is followed down to the innermost element type" if nested else
                   "only the direct element type is asked for const-ness: `const int n[2][3][4]` is not const", b.loc(reads[0]))
     rep.need(n_sites >= 1, "an array const-ness computation reading elem_type() in Type::from_clang_ty")
+
+
+@RULES.rule("R4.10", "only declarations that have a symbol become `extern` items: functions AND variables look at the linkage", floor=2)
+def r4_10(rep):
+    """`Function::parse` drops functions whose linkage is neither external nor (for the wrapper feature) internal.  `Var::parse` has
+    no such test: `static int counter;` (internal linkage, no symbol visible to the linker) is emitted as
+    `extern "C" { pub static mut counter: c_int; }`, which fails at link time as soon as it is used."""
+    prog = rep.prog
+    fp = rep.need(prog.impl_fn("parse::ClangSubItemParser", "ir::function::Function", "parse"), "<Function as ClangSubItemParser>::parse")
+    vp = rep.need(prog.impl_fn("parse::ClangSubItemParser", "ir::var::Var", "parse"), "<Var as ClangSubItemParser>::parse")
+
+    def linkage_filter(b):
+        """a `return Err(ParseError::Continue)` (or a skipped construction) that depends on `cursor.linkage()`"""
+        for r in b.nodes:
+            if r["k"] != "Ret":
+                continue
+            for pol, kind, g in b.guards(r, nested=True):
+                src = ""
+                if kind == "cond":
+                    src = b.canon(g, 6)
+                elif kind in ("arm", "notarm", "notall"):
+                    m_ = g[0] if kind != "notall" else None
+                    src = b.canon(m_["scrut"], 6) if m_ is not None else ""
+                if "clang::Cursor::linkage(" in src:
+                    return True
+        return False
+    rep.check(linkage_filter(fp), "linkage-filter@Function::parse", "functions without a linkable symbol are dropped", fp.loc(fp.root))
+    ok = linkage_filter(vp)
+    rep.check(ok, "linkage-filter@Var::parse", "variables without a linkable symbol are dropped" if ok else
+              "Var::parse never rejects a declaration because of its linkage: a `static` variable without a constant value becomes an `extern` static "
+              "that no object file defines", vp.loc(vp.root))
